@@ -98,9 +98,9 @@ var checks = map[string]*check{
 	"C01": {
 		id: "C01", models: []model{mcBigNat, mcRound, mcSum}, trace: "Trace_Core", batch: 4,
 		gen: func(g *gen.G, thor bool) []gen.Program {
-			return append(gen.Round(g, n(thor, 1500, 40000)), gen.BigQuo(g, n(thor, 10, 150))...)
+			return append(append(gen.Round(g, n(thor, 1500, 40000)), gen.BigQuo(g, n(thor, 10, 150))...), gen.Ctx(g, n(thor, 8, 100), 150)...)
 		},
-		rule:        "cases = Add/Sub/Mul/Quo/Set/SetPrec/Neg/Abs calls on operands built from adversarial digit patterns (ties, near-ties, all-nines carries, cancellation, exponent gaps around the precision, exact quotients by multi-word 9/0-run divisors, exponents within 60 of the int32 limits; quotients by 100-140 word divisors (5000..0999..9, 99..900..01 patterns) at precisions of 1000-5000 digits into dirty receivers) x 6 modes x aliasing shapes x receiver histories; a case is non-trivial/distinct by its specification branch cell (operation x rounding branch x operand forms), counted by TLC in the trace specification's cov variable",
+		rule:        "context sessions (the same operations reached through package context, receivers and operands whose own precision and mode differ from the context's); cases = Add/Sub/Mul/Quo/Set/SetPrec/Neg/Abs calls on operands built from adversarial digit patterns (ties, near-ties, all-nines carries, cancellation, exponent gaps around the precision, exact quotients by multi-word 9/0-run divisors, exponents within 60 of the int32 limits; quotients by 100-140 word divisors (5000..0999..9, 99..900..01 patterns) at precisions of 1000-5000 digits into dirty receivers) x 6 modes x aliasing shapes x receiver histories; a case is non-trivial/distinct by its specification branch cell (operation x rounding branch x operand forms), counted by TLC in the trace specification's cov variable",
 		assumptions: commonAssumptions, req: roundReq,
 	},
 	"C03": {
